@@ -3,6 +3,8 @@
 #include "../engine/seqmc.hpp"
 #include "../engine/world.hpp"
 #include <frg/hash_map.hpp>
+#include <frg/hash.hpp>
+#include <climits>
 #include <map>
 #include <algorithm>
 
@@ -27,9 +29,20 @@ struct HashFn {
 };
 static const char *hash_name[] = {"identity", "constant", "lowbit", "times10", "wide64", "negative", "fib"};
 
-template<class Val>
+// Key spaces: the harness works with small integer names; a key space maps a name to the real key and
+// supplies the hasher.  Besides the synthetic functors above, the library's own frg::hash specialisations
+// are used with keys on which they are not the identity (negative, wider than 32 bits, pointers, C strings).
+struct IntKeys { using key = int; using hasher = HashFn; static key make(int i) { return i; } static hasher hash(int mode) { return HashFn{mode}; } };
+struct FrgIntKeys { using key = int; using hasher = frg::hash<int>; static key make(int i) { return (i & 1) ? -i : i; } static hasher hash(int) { return {}; } };
+struct FrgI64Keys { using key = int64_t; using hasher = frg::hash<int64_t>; static key make(int i) { return (i & 1) ? -(int64_t)i * 0x100000001ll : (int64_t)i * 0x100000001ll + ((int64_t)i << 40); } static hasher hash(int) { return {}; } };
+struct FrgU64Keys { using key = uint64_t; using hasher = frg::hash<uint64_t>; static key make(int i) { return (uint64_t)i * 0x9E3779B97F4A7C15ull; } static hasher hash(int) { return {}; } };
+static char g_ptr_pool[4096];
+struct FrgPtrKeys { using key = char *; using hasher = frg::hash<char *>; static key make(int i) { return &g_ptr_pool[i]; } static hasher hash(int) { return {}; } };
+
+template<class Val, class KS = IntKeys>
 struct HmHarness : HarnessBase {
-	using M = frg::hash_map<int, Val, HashFn, TrackAlloc>;
+	using Key = typename KS::key;
+	using M = frg::hash_map<Key, Val, typename KS::hasher, TrackAlloc>;
 	int mode, prefill; bool drain_first;
 	alignas(16) unsigned char store[sizeof(M)];
 	bool alive = false;
@@ -50,9 +63,9 @@ struct HmHarness : HarnessBase {
 	void reset() {
 		world_reset();
 		memset(store, 0, sizeof store);
-		new(store) M(HashFn{mode}, TrackAlloc{}); alive = true; ref.clear();
-		for(int i = 0; i < prefill; i++) { int k = 3 * i + 1; m().insert(k, Val(1 + (i & 1))); ref[k] = 1 + (i & 1); }
-		if(drain_first) { for(int i = 0; i < prefill; i++) { m().remove(3 * i + 1); } ref.clear(); }
+		new(store) M(KS::hash(mode), TrackAlloc{}); alive = true; ref.clear();
+		for(int i = 0; i < prefill; i++) { int k = 3 * i + 1; m().insert(KS::make(k), Val(1 + (i & 1))); ref[k] = 1 + (i & 1); }
+		if(drain_first) { for(int i = 0; i < prefill; i++) { m().remove(KS::make(3 * i + 1)); } ref.clear(); }
 	}
 	enum { INSERT_C, INSERT_M, INDEX_ASSIGN, INDEX_TOUCH, REMOVE };
 	static uint32_t mk(uint32_t k, uint32_t ki, uint32_t v = 0) { return k | ki << 8 | v << 16; }
@@ -71,11 +84,11 @@ struct HmHarness : HarnessBase {
 	void apply(uint32_t op) {
 		uint32_t kind = op & 0xff; int k = alphabet[(op >> 8) & 0xff]; int v = op >> 16;
 		switch(kind) {
-		case INSERT_C: { Val x(v); m().insert(k, x); ref[k] = v; break; }
-		case INSERT_M: { m().insert(k, Val(v)); ref[k] = v; break; }
+		case INSERT_C: { Val x(v); m().insert(KS::make(k), x); ref[k] = v; break; }
+		case INSERT_M: { m().insert(KS::make(k), Val(v)); ref[k] = v; break; }
 		case INDEX_ASSIGN: {
 			bool was = ref.count(k); size_t before = m().size();
-			Val &r = m()[k];
+			Val &r = m()[KS::make(k)];
 			if(was && val(r) != ref[k]) fail("operator[]:value", "operator[] on a present key returned a different value");
 			if(!was && val(r) != 0) fail("operator[]:default", "operator[] on an absent key did not return a default value");
 			if(m().size() != before + (was ? 0 : 1)) fail("operator[]:size", "operator[] changed size() by the wrong amount");
@@ -83,13 +96,13 @@ struct HmHarness : HarnessBase {
 		}
 		case INDEX_TOUCH: {
 			bool was = ref.count(k);
-			Val &r = m()[k];
+			Val &r = m()[KS::make(k)];
 			if(was && val(r) != ref[k]) fail("operator[]:value", "operator[] on a present key returned a different value");
 			if(!was) { if(val(r) != 0) fail("operator[]:default", "operator[] on an absent key did not return a default value"); ref[k] = 0; }
 			break;
 		}
 		case REMOVE: {
-			auto o = m().remove(k);
+			auto o = m().remove(KS::make(k));
 			if(ref.count(k)) {
 				if(!o) fail("remove:missed", "remove() of a present key returned nothing");
 				if(val(*o) != ref[k]) fail("remove:value", "remove() returned the wrong value");
@@ -105,9 +118,9 @@ struct HmHarness : HarnessBase {
 		if(x.empty() != ref.empty()) fail("empty", "empty() differs from the reference");
 		for(int k : universe) {
 			auto it = ref.find(k);
-			Val *g = x.get(k);
-			auto f = x.find(k);
-			auto cf = cx.find(k);
+			Val *g = x.get(KS::make(k));
+			auto f = x.find(KS::make(k));
+			auto cf = cx.find(KS::make(k));
 			if(it == ref.end()) {
 				if(g) fail("get:spurious", "get() found absent key " + std::to_string(k));
 				if(!(f == x.end()) || !(cf == cx.end())) fail("find:spurious", "find() found absent key " + std::to_string(k));
@@ -115,14 +128,16 @@ struct HmHarness : HarnessBase {
 				if(!g) fail("get:missed", "get() does not find present key " + std::to_string(k));
 				if(val(*g) != it->second) fail("get:value", "get() returned the wrong value");
 				if(f == x.end() || cf == cx.end()) fail("find:missed", "find() does not find present key " + std::to_string(k));
-				if(f->template get<0>() != k || val(f->template get<1>()) != it->second || cf->template get<0>() != k) fail("find:value", "find() returned the wrong entry");
+				if(f->template get<0>() != KS::make(k) || val(f->template get<1>()) != it->second || cf->template get<0>() != KS::make(k)) fail("find:value", "find() returned the wrong entry");
 				if(&f->template get<1>() != g) fail("find:identity", "find() and get() designate different objects");
 			}
 		}
 		std::map<int, int> seen; size_t guard = 0;
 		for(auto it = x.begin(); !(it == x.end()); ++it) {
 			if(++guard > ref.size() + 2) fail("iteration:runaway", "iteration yields more entries than size()");
-			int k = it->template get<0>();
+			Key rk = it->template get<0>(); int k = INT_MIN;
+			for(int u : universe) if(KS::make(u) == rk) k = u;
+			if(k == INT_MIN) fail("iteration:foreign", "iteration yields a key that was never inserted");
 			if(seen.count(k)) fail("iteration:duplicate", "iteration yields an entry twice");
 			seen[k] = val(it->template get<1>());
 		}
@@ -154,6 +169,15 @@ static std::vector<Instance> mk(const std::string &tier) {
 		v.push_back(bfs_instance<HmHarness<Tracked>>(std::string("hm-") + hash_name[mode] + "-fill12-drained", o, mode, 12, true));
 		v.push_back(bfs_instance<HmHarness<Tracked>>(std::string("hm-") + hash_name[mode] + "-fill21-drained", o, mode, 21, true));
 	}
+	// the library's own hash functors on keys where they are not the identity
+	for(int f : {0, 9, 10, 20, 40}) {
+		BfsOptions o; o.max_depth = th ? 5 : 4;
+		v.push_back(bfs_instance<HmHarness<Tracked, FrgIntKeys>>("hm-frg-hash-int-fill" + std::to_string(f), o, 0, f, false));
+		v.push_back(bfs_instance<HmHarness<Tracked, FrgI64Keys>>("hm-frg-hash-i64-fill" + std::to_string(f), o, 0, f, false));
+		v.push_back(bfs_instance<HmHarness<Tracked, FrgU64Keys>>("hm-frg-hash-u64-fill" + std::to_string(f), o, 0, f, false));
+		v.push_back(bfs_instance<HmHarness<Tracked, FrgPtrKeys>>("hm-frg-hash-ptr-fill" + std::to_string(f), o, 0, f, false));
+	}
+	{ BfsOptions o; o.max_depth = th ? 5 : 4; v.push_back(bfs_instance<HmHarness<Tracked, FrgI64Keys>>("hm-frg-hash-i64-fill21-drained", o, 0, 21, true)); }
 	return v;
 }
 int main(int argc, char **argv) { return harness_main(argc, argv, mk); }
